@@ -74,8 +74,10 @@ int k = 5;
 int f(struct node *n, int k) { int s = 0; while (n) { s += n->v; n = n->next; } return s + k; }
 """
 ASM_SRC = {
-    'arm': "section code\nglobal foo\nfoo: mov r0, 5\n bl bar\n b foo\nsection data\nglobal d1\nd1: dd 0x11223344\n dd foo\n",
-    'x86_64': "section code\nglobal foo\nfoo: mov rax, 5\n call bar\n jmp foo\nsection data\nd1: dq foo\n",
+    'arm': "section code\nglobal foo\nfoo: mov r0, 5\n bl bar\n b foo\nsection data\nglobal d1\nd1: dd 0x11223344\n",
+    'x86_64': "section code\nglobal foo\nfoo: mov rax, 5\n call bar\n jmp foo\nsection data\nd1: db 5\n",
+    # `dq 5` makes ppci's x86_64 assembler emit a symbol whose *name* is the int 5 (oracle only: not a model record)
+    'x86_64/intname': "section data\nd1: dq 5\n",
     'riscv': "section code\nglobal foo\nfoo: addi x1, x0, 5\n jal x1, bar\n j foo\n",
 }
 
@@ -164,6 +166,23 @@ def obj_fields(o):
             o.entry_symbol_id)
 
 
+def typed(o):
+    """field types of the model records (ppci's own producers use these; e.g. an int symbol name is not modelled)"""
+    def st(x):
+        return isinstance(x, str)
+
+    def it(x):
+        return isinstance(x, int) and not isinstance(x, bool)
+    return (all(st(s.name) and it(s.address) and it(s.alignment) for s in o.sections)
+            and all(it(y.id) and st(y.name) and st(y.binding) and (y.value is None or it(y.value))
+                    and (y.section is None or st(y.section)) and (y.typ is None or st(y.typ))
+                    and (y.size is None or it(y.size)) for y in o.symbols)
+            and all(st(r.reloc_type) and it(r.symbol_id) and st(r.section) and it(r.offset) and it(r.addend)
+                    for r in o.relocations)
+            and all(st(i.name) and it(i.address) for i in o.images)
+            and (o.entry_symbol_id is None or it(o.entry_symbol_id)))
+
+
 def model_wf(o):
     """python mirror of wf_objb (used only to count / label cases)"""
     names = [s.name for s in o.sections]
@@ -176,7 +195,7 @@ def model_wf(o):
 
 
 # ------------------------------------------------------------------ generators
-def gen_object(ctx, arch_ids, ascii_only=True):
+def gen_object(ctx, arch_ids, ascii_only=True, small=False):
     from ppci.api import get_arch
     from ppci.binutils.objectfile import ObjectFile, Image, RelocationEntry
     rng = ctx.rng
@@ -185,7 +204,7 @@ def gen_object(ctx, arch_ids, ascii_only=True):
     o = ObjectFile(get_arch(rng.choice(arch_ids)))
     for nm in rng.sample(names, rng.randrange(0, 5)):
         s = o.create_section(nm)
-        n = rng.choice(SIZES) if rng.random() < 0.6 else rng.randrange(0, 71)
+        n = rng.randrange(0, 4) if small else (rng.choice(SIZES) if rng.random() < 0.6 else rng.randrange(0, 71))
         s.add_data(bytes(rng.randrange(256) if rng.random() < 0.8 else rng.choice([0, 255, 0x0a, 0xf0])
                          for _ in range(n)))
         s.alignment = rng.choice([1, 2, 4, 4, 8, 16, 0x1000])
@@ -244,7 +263,7 @@ def compiled_objects(ctx, with_debug=True):
             ctx.log('cc failed for', a, repr(ex)[:200])
     for a, src in ASM_SRC.items():
         try:
-            out.append(('asm:%s' % a, asm(io.StringIO(src), a)))
+            out.append(('asm:%s' % a, asm(io.StringIO(src), a.split('/')[0])))
         except Exception as ex:   # noqa: BLE001
             ctx.log('asm failed for', a, repr(ex)[:200])
     for lbl, o in list(out):
@@ -519,7 +538,7 @@ def known_witnesses(ctx):
 
 
 # ------------------------------------------------------------------ oracle / search
-def oracle(ctx, arch_ids, deep):
+def oracle(ctx, arch_ids, deep, comp_dbg=None):
     from ppci.binutils.archive import Archive
     from ppci.api import link
     n = 0
@@ -540,7 +559,8 @@ def oracle(ctx, arch_ids, deep):
         n += 1
         check_roundtrip(ctx, 'section of %d bytes' % ln, o, 'ObjectFile(arm) with one section of %d bytes ((i*7+%d)%%256)' % (ln, ln))
     # compiler output with and without debug info
-    comp = compiled_objects(ctx, True) + compiled_objects(ctx, False)
+    comp_dbg = comp_dbg or compiled_objects(ctx, True)
+    comp = comp_dbg + compiled_objects(ctx, False)
     for lbl, o in comp:
         n += 1
         check_roundtrip(ctx, 'compiler output ' + lbl, o, 'ppci.api %s (debug=True) of the snippet in tools/props/c14.py' % lbl)
@@ -573,7 +593,7 @@ def oracle(ctx, arch_ids, deep):
                            'how_to_replay': 'Archive of generated objects, seed %d, group #%d' % (ctx.seed, k)})
     # linking reloaded objects gives the identical result
     pairs = {}
-    for lbl, o in comp:
+    for lbl, o in comp_dbg:
         if lbl.startswith(('c3c:', 'asm:')):
             pairs.setdefault(lbl.split(':')[1], []).append(o)
     for a, group in pairs.items():
@@ -610,12 +630,22 @@ def search(ctx):
 def run(ctx):
     from ppci.common import make_num
     from ppci.utils.binary_txt import bin2asc, asc2bin
+    import time
     rng = ctx.rng
+    tm = ctx.cov['stages'].setdefault('timing_s', {})
+    t0 = time.time()
+
+    def lap(name):
+        nonlocal t0
+        tm[name] = round(time.time() - t0, 1)
+        t0 = time.time()
     ids = regen(ctx)
+    real = None
     ok, _ = ctx.build(['Proofs/C14_objfile.vo'])
     if ok:
         ctx.check_props('Props/C14.v')
     debug_class_audit(ctx)
+    lap('build+props')
 
     if ctx.build(['Model/ObjectFile.vo', 'Lib/Val.vo'])[0]:
         imports = ['Lib.Json', 'Model.ObjectFile']
@@ -647,6 +677,7 @@ def run(ctx):
             recs.append(('asc2bin', repr(bad)))
         bad = ctx.run_cases('small', imports, cases)
         report_bad(ctx, 'small functions', bad, recs)
+        lap('small cases')
         ctx.cov['stages']['small_function_cases'] = len(cases)
 
         # ---- (a) serialize, (c) deserialize on objects
@@ -673,16 +704,18 @@ def run(ctx):
             dist['undefined_symbols'] += any(y.value is None for y in o.symbols)
             dist['negative_addends'] += any(r.addend < 0 for r in o.relocations)
             dist['chunked_sections'] += any(len(s.data) > 30 for s in o.sections)
-            t = obj_term(o)
-            cases.append(('serialize %s' % t, json_val(d)))
-            recs.append(('serialize', lbl))
-            cases.append(('deserialize (%s)' % json_term(d), impl_deserialize(d)))
-            recs.append(('deserialize', lbl))
-            # the model's own round trip on this object agrees with the real one
-            cases.append(('deserialize (serialize %s)' % t, impl_deserialize(d)))
-            recs.append(('deserialize.serialize', lbl))
-            if len(mut_src) < (25 if ctx.quick() else 120) and o.sections and o.symbols and o.relocations and o.images:
-                mut_src.append((lbl, d))
+            if not typed(o):
+                dist['ill_typed_skipped'] = dist.get('ill_typed_skipped', 0) + 1
+                continue
+            # one case = (model serialize o, model deserialize of that JSON) against
+            # (real serialize output, real deserialize of the real output)
+            cases.append(('let o := %s in (serialize o, deserialize (serialize o))' % obj_term(o),
+                          (json_val(d), impl_deserialize(d))))
+            recs.append(('serialize / deserialize', lbl))
+        for k in range(12 if ctx.quick() else 80):
+            o = gen_object(ctx, ids, small=True)
+            if o.sections and o.symbols:
+                mut_src.append(('small#%d' % k, o.serialize()))
         outcomes = {'ok': 0, 'diag': 0, 'internal': 0}
         for lbl, d in mut_src:
             for ml, m in mutations(ctx, d):
@@ -705,12 +738,15 @@ def run(ctx):
         ctx.cov['distinct_nontrivial'] += nontriv
         for lbl, o in (gen[:3] + real[:2]):
             ctx.note_sample({'object': lbl, 'serialized': json.dumps(o.serialize())[:300]})
-        bad = ctx.run_cases('objects', imports, cases, shard=150)
+        lap('object generation')
+        bad = ctx.run_cases('objects', imports, cases, shard=100)
         report_bad(ctx, 'objects', bad, recs)
+        lap('object cases')
 
     # ---- oracle: real round trips, per field; deep when something failed or tier is thorough
-    n = oracle(ctx, ids, (not ctx.quick()) or bool(ctx.failed_stages))
+    n = oracle(ctx, ids, (not ctx.quick()) or bool(ctx.failed_stages), real)
     known_witnesses(ctx)
+    lap('oracle')
     ctx.cov['stages']['oracle_roundtrips'] = n
     ctx.cov['evaluations'] += n
     ctx.cov['exhaustive'] = False
